@@ -19,17 +19,18 @@ from translate import c20_vmtblocks as TV
 MANIFEST = dict(
     technique='Rocq proof (byte-level codec round trips: Hammer command sequences, the scenes.image container driven by a configuration '
               'regenerated from choreo.py incl. string-pool construction and sort site, binary choreo scenes as layouts with a round-trip '
-              'theorem for every layout; quoted-field lexing for the text writers; field splitting of SMD lines; the scene summary) + seven '
+              'theorem for every layout; quoted-field lexing for the text writers; field splitting of SMD lines; the scene summary) + eight '
               'fail-closed ast translators (struct formats with the value each field carries on both sides, sort and version sites, line / '
               'field templates, operator-stack census with the version-2 test of Sound.export, the VMT quoting decision table and file '
               'frame, width paths of every binary writer/reader pair; all normalise before matching: struct spellings, helper functions, '
               'early returns, locals; round 4: the keyed tables of the writers -- dict / set / find_or_insert / DeferredWrites keys, '
               'for an object key the attributes its class compares in __eq__ / __ne__ / __hash__ -- with the key each reader stores its '
-              'result under, and the quantisation sites of binary scenes) + vm_compute correspondence on ten models (two exhaustive on a '
+              'result under, and the quantisation sites of binary scenes; round 5: the recursion of vmt._write_block with its three templates '
+              'and the blocks / Proxies part of Material.export) + vm_compute correspondence on eleven models (two exhaustive on a '
               'small scope; the quantisation model runs on the kernel\'s binary64 floats) + round-trip / second-generation / '
               'observer-effect oracle search on all eight writers with names that collide under casefold / strip, repeated names and '
               'deep-copied values; every call into the implementation under a time limit',
-    text='Theorems in Props/C20.v (76): cmdseq.parse(cmdseq.write(v)) = v and byte-identical second generation for every configuration '
+    text='Theorems in Props/C20.v (85): cmdseq.parse(cmdseq.write(v)) = v and byte-identical second generation for every configuration '
          'satisfying the obligations regenerated from cmdseq.py; the scenes.image writer over the configuration regenerated from choreo.py '
          'produces the bytes of the container model for both input forms whatever the dict keys are, parses back (header, pool through '
          'the offset table, CRC-sorted table, v2/v3 summaries, blobs; LZMA as a hypothesis pair), its table is sorted by the stored '
@@ -60,6 +61,15 @@ MANIFEST = dict(
          'line-by-line reader as exactly the (name, parent name) records of the bones, each once, whatever the dict order; every stored '
          'value of a quantised binary-scene field (all 256 byte values for factor 255, all 65536 values for absolute tags) is read as a '
          'float that min(MAX, max(0, round(v * FACTOR))) writes back as the same field, in IEEE binary64 as evaluated by the kernel. '
+         'Round 5: VMT sub-blocks and proxies -- for every block configuration passing the two booleans discharged for the templates '
+         'regenerated from vmt._write_block / Material.export, the whole file of a material with parameters, nested sub-blocks and proxies '
+         'is lexed without error to shader / { / the pairs / the canonical tokens of every block tree / the Proxies frame / }, and a '
+         'recursive-descent reader of those tokens returns exactly the trees (so the tokens determine the blocks); c20_property: ONE '
+         'statement whose only hypothesis is the boolean `premises` of the record of ALL regenerated objects (discharged on every run for '
+         'the objects of that run, including the enumeration of every stored value of every quantisation site), concluding the round trips '
+         'of cmdseq, scenes.image (incl. the pool the writer builds, sorted table, independence of caller order), binary layouts and '
+         'quantised fields, soundscript stacks (incl. independence of lazy reads), the SMD nodes section and every SMD line, VMT files '
+         'with blocks, and every structured line of the soundscript and choreo text writers. '
          'cmdseq, scenes.image (container, pool+sort), binary scene layout, SMD bone numbering, tag quantisation, scene summary, soundscript stacks (all 128 small states x '
          'histories of lazy reads) and VMT quoting (all strings of length <= 2 over 25 characters, parameter lines, whole files) models '
          'are compared with the implementation byte for byte / value for value on every run. All eight writers are searched: generated values inside each format\'s alphabet, '
@@ -68,13 +78,17 @@ MANIFEST = dict(
     note='Partial: proof level for cmdseq (complete), the scenes.image container with pool and sort, binary scenes at raw-field level '
          '(the float32 / byte quantisation of values and the Python objects behind the raw fields are outside the model), quoted fields of '
          'the text writers at tokenizer level, soundscript operator stacks at the level of which blocks exist with which children, VMT '
-         'files of parameter-only materials at token level (quoted strings without backslash; blocks / proxies and what Material.parse '
-         'builds from the tokens are searched), SMD data lines at word level and the nodes section as a whole (skeleton / triangle '
+         'files incl. sub-blocks and proxies at token level (quoted strings without backslash; what Material.parse '
+         'builds from the tokens is searched), SMD data lines at word level and the nodes section as a whole (skeleton / triangle '
          'sections refer to bones through the same table; their numeric text is searched), quantised fields on stored values (other '
-         'values: correspondence); soundscript / PCF / choreo text whole-file round trips are decided by search only. Trusted: Coq kernel + vm_compute (incl. its primitive binary64 floats), translate/c20_formats.py, c20_keytables.py, c20_quant.py, hand models Fmt/SmdNumber.v, Fmt/ChoreoQuant.v, '
+         'values: correspondence); soundscript / PCF / choreo text whole-file round trips are decided by search only. Trusted: Coq kernel + vm_compute (incl. its primitive binary64 floats), translate/c20_formats.py, c20_keytables.py, c20_quant.py, c20_vmtblocks.py, hand models Fmt/SmdNumber.v, Fmt/ChoreoQuant.v, Fmt/VmtBlocks.v, '
          'Fmt/CmdSeq.v, Fmt/ScenesImage.v, Fmt/ChoreoBin.v layouts, Fmt/SceneSummary.v, Fmt/SndStacks.v, Fmt/VmtQuote.v (each tied by differential runs; the layouts also by '
          'kernel-checked path equality with the generated paths), the tokenizer model KV/KvLex.v of C01, CPython struct/lzma/zlib.crc32. '
-         'No known finding left: round 4 repaired the text writer of the flexanimations block (never closed) and implemented its reader.',
+         'Known finding (kept): Scene.parse_text raises NotImplementedError on the flexanimations block Event.export_text writes (a reader for '
+         'it is a feature, not a small repair; round 4 repaired the writer, which never closed the block). Text scenes with flex tracks are '
+         'still checked on the writer side: the check has its own reader for the block (written from the grammar the writer emits) and '
+         'compares it with the tracks of the event, the rest of the file must be token for token the file of the scene without tracks, '
+         'and that scene goes through the ordinary round trip.',
 )
 
 IMP_CS = ['Coq.Lists.List', 'Coq.NArith.NArith', 'Coq.ZArith.ZArith', 'Coq.Bool.Bool', 'SV.Fmt.CmdSeq', 'SV.Gen.CmdSeqFmt_gen']
@@ -1806,7 +1820,9 @@ def run(ck: Ck) -> None:
                'strings used in the spec and re-uses them or derives variants that collide under casefold / strip (only blanks where the '
                'format itself ignores case), a quarter of the SMD meshes are deep copies (equal but not identical Bone objects); skeleton '
                'cases (children first, cycles, copies, foreign parents, several objects of one name) count when they have two bones, '
-               'quantisation cases are distinct by (class, value)')
+               'quantisation cases are distinct by (class, value); VMT block cases are whole materials, distinct by spec, counted when they '
+               'have a sub-block or proxy; a text scene with flex tracks (the reader raises NotImplementedError: known finding) is checked by '
+               'the block oracle and once more without its tracks')
     ck.trusted.append('hand-written models Fmt/CmdSeq.v, Fmt/ScenesImage.v, Fmt/ScenesImageCfg.v (writer over the generated configuration), '
                       'Fmt/ChoreoBin.v (layouts), Fmt/SceneSummary.v: tied by byte-exact / value-exact differential correspondence on every run; '
                       'the layouts additionally by kernel-checked equality of their width paths with the paths regenerated from choreo.py')
@@ -1817,6 +1833,13 @@ def run(ck: Ck) -> None:
                       '(round / clamp / divide on the kernel floats): differential correspondence with Mesh.export and Tag / AbsoluteTag.export_binary / '
                       'parse_binary on every run; Fmt/BspDedup*.v (C11) for the find-or-insert table; WRITER_ITEM / READERS tables of '
                       'translate/c20_keytables.py (which function is a writer / reader, which class a str-keyed table stands for)')
+    ck.trusted.append('hand-written model Fmt/VmtBlocks.v (the recursion of vmt._write_block over the three regenerated templates, the blocks / '
+                      'Proxies part of Material.export; its token-level reader read_blocks stands for what Keyvalues parsing makes of the '
+                      'tokens): differential correspondence of vmt_file_b with Material.export on generated materials with nested blocks and '
+                      'proxies on every run; translate/c20_vmtblocks.py matches the control flow fail-closed')
+    ck.trusted.append('harness.c20_util.read_flex_block (the check\'s own reader of the flexanimations block of text scenes, written from the grammar '
+                      'Event.export_text / FlexAnimTrack.export_text emit; numbers by float(), curve names by CurveType.parse_text): it replaces the '
+                      'reader srctools does not have (known finding) for the writer\'s half of the property')
     ck.trusted.append('Coq kernel primitives PrimInt63.* and PrimFloat.* (63-bit integers, IEEE binary64): the quantisation theorems are computations on '
                       'them; Print Assumptions lists these primitives and no logical axiom (no FloatAxioms)')
     ck.trusted.append('KV/KvLex.v (tokenizer model of C01) for the quoted-field theorems; the escape table is tied to tokenizer.py by C01')
